@@ -13,7 +13,7 @@
 (***************************************************************************)
 EXTENDS BookImpl
 
-CONSTANTS Tick, NLevels, Trading0, Ops, Dts, Sides, Kinds, Prices, Vols, Traders, ModPrices, ModVols,
+CONSTANTS Tick, NLevels, Trading0, Ops, Dts, Sides, Kinds, Prices, Vols, Traders, ModPrices, ModVols, VolCap,
           MaxOrders, MaxOps, Discipline
 
 VARIABLES ib, ab, last, n
